@@ -515,6 +515,40 @@ func runPoints(c *mon.Ctx, r *grp, s *slib) {
 		}
 	}
 
+	// --- (b') the curve point with the smallest abscissa: where the modulus nearly fills its bytes, v+p only fits for
+	// such a v (prime fields; the model judges the bytes, whatever group the point is in) ---
+	if F.Deg() == 1 {
+		bits := 8 * r.lib.fpBytes
+		for m := mask; m != 0; m <<= 1 {
+			bits--
+		}
+		for k := int64(0); k < 64; k++ {
+			x := F.FromInt64(k)
+			y, ok := fm.Root(x)
+			if !ok {
+				continue
+			}
+			P := ocurve.Pt{X: x, Y: y}
+			raw := fm.Encode(P, false)
+			judge(c, r, s, es, raw, "raw/smallest-abscissa")
+			v := new(big.Int).Add(big.NewInt(k), p)
+			if v.BitLen() <= bits {
+				cb, _ := chunkBE(v, r.lib.fpBytes)
+				o := append([]byte(nil), raw...)
+				copy(o, cb)
+				judge(c, r, s, es, o, "raw/chunk0=v+p/smallest-abscissa")
+				if fm.Fam != ocodec.NoFlags {
+					cp := fm.Encode(P, true)
+					o2 := append([]byte(nil), cp...)
+					copy(o2, cb)
+					o2[0] |= cp[0] & mask
+					judge(c, r, s, es, o2, "compressed/chunk0=v+p/smallest-abscissa")
+				}
+			}
+			break
+		}
+	}
+
 	// --- (c) x without a square root, x of curve points outside the subgroup, both signs ---
 	if fm.Fam != ocodec.NoFlags {
 		x := F.Copy(Q.X)
